@@ -205,7 +205,19 @@ def run_cli(r: Runner, scn: dict):
     out = d / "out.bin"
     want = []
     uris = []
-    if scn["sub"] == "from_payloads":
+    if scn["sub"] == "from_envelope":
+        from . import c11_extract
+        pays = []
+        for n, (uri, dl, sd) in enumerate(scn["inputs"]):
+            data = bytes(((sd * 7 + i * 13) % 251 + 1) & 0xFF for i in range(dl))
+            pays.append((uri, data))
+            want.append([it.id(uri), it.id(data)])
+            uris.append(uri)
+        envb = c11_extract.make_env(ctx, d, ctx.rng, 7000 + r.tid, pays, [])
+        (d / "in.suit").write_bytes(envb)
+        args = ["cache_create", "from_envelope", "--output-file", out, "--eb-size", scn["eb"], "--input-envelope", d / "in.suit",
+                "--output-envelope", d / "out.suit"]
+    elif scn["sub"] == "from_payloads":
         args = ["cache_create", "from_payloads", "--output-file", out, "--eb-size", scn["eb"]]
         for n, (uri, dl, sd) in enumerate(scn["inputs"]):
             data = bytes(((sd * 7 + i * 13) % 251 + 1) & 0xFF for i in range(dl))
@@ -301,6 +313,11 @@ def gen_cli(ctx: core.Check):
         if k % 3 == 0:
             names = list(dict.fromkeys(names))
         scns.append({"kind": "cli", "sub": "from_payloads", "eb": eb,
+                     "inputs": [[nm, rng.choice([0, 1, 7, 16, 300]), rng.randrange(50)] for nm in names]})
+    for k in range(n):
+        eb = rng.choice([1, 4, 8, 16, 64, 100])
+        names = list(dict.fromkeys(rng.choice(["#app", "#rad", "cache://x", "a", "b" * 24, "#sys"]) for _ in range(rng.randint(1, 4))))
+        scns.append({"kind": "cli", "sub": "from_envelope", "eb": eb,
                      "inputs": [[nm, rng.choice([0, 1, 7, 16, 300]), rng.randrange(50)] for nm in names]})
     for k in range(n):
         eb = rng.choice([1, 4, 8, 16, 64])
